@@ -1,3 +1,275 @@
--- stub: the driver of C12 is not built yet
+/-
+  Line-protocol driver of C12 (Retry middleware).
+
+  Request (one line, fields in this order):
+    retry mr=<int> init=<ns> max=<ns> mul=<p>/<q> rf=<a>/<b> el=<ns> hook=<0|1>
+          outs=<o0>,<o1>,…      one outcome per possible handler call: f<k> = fails, s<k> = succeeds, with k output messages
+                                 (call i returns the messages i.0 … i.(k-1) and, when it fails, the error e<i>)
+          cancel=<j|->           the message context is cancelled from inside call j
+          sleep=<j>:<ns>|-       call j sleeps (only the harness uses it)
+          n=<calls> d=<delays reported to OnRetryHook, in call order | -> ts=<start of call i>,… te=<end of call i>,… tr=<return>
+                                 recorded from the real run (ns since the start of call 0)
+  Observation:
+    n=<calls> hooks=<num>:<delay>,…|- res=<msgs|->/<err|-> time=ok
+
+  `M` explains the recorded run with the model: from the recorded delays it reconstructs the random draws, from the
+  time stamps the lags and timer latenesses (none may be negative: `time.After` never fires early), from
+  `cancel`/`tr` which alternative the `select` takes; then it runs `Wm.Retry.retry` and prints what the model does.
+  `P` evaluates the clauses of the property on the observation without using `retry`.
+-/
 import WmModel.Basic
-def main : IO Unit := Wm.driverMain (fun _ => "bad-op")
+import WmModel.Retry
+open Wm Wm.Retry
+
+structure Req where
+  cfg    : Cfg
+  outs   : List Outcome
+  cancel : Option Nat
+  n      : Nat
+  d      : List Int
+  ts     : List Nat
+  te     : List Nat
+  tr     : Nat
+
+def kv (key : String) (tok : String) : Option String :=
+  match tok.splitOn "=" with
+  | [k, v] => if k = key then some v else none
+  | _ => none
+
+def natList (s : String) : Option (List Nat) :=
+  if s = "-" then some [] else (s.splitOn ",").mapM String.toNat?
+
+def intList (s : String) : Option (List Int) :=
+  if s = "-" then some [] else (s.splitOn ",").mapM String.toInt?
+
+def frac (s : String) : Option (Nat × Nat) :=
+  match s.splitOn "/" with
+  | [a, b] => do
+    let a ← a.toNat?
+    let b ← b.toNat?
+    if b = 0 then none else pure (a, b)
+  | _ => none
+
+def outcomeOf (i : Nat) (s : String) : Option Outcome :=
+  match s.toList with
+  | 'f' :: r => do
+    let k ← (String.ofList r).toNat?
+    pure ⟨(List.range k).map (fun j => i * 100 + j), some i⟩
+  | 's' :: r => do
+    let k ← (String.ofList r).toNat?
+    pure ⟨(List.range k).map (fun j => i * 100 + j), none⟩
+  | _ => none
+
+def outcomesOf (s : String) : Option (List Outcome) :=
+  let toks := s.splitOn ","
+  (toks.zipIdx).mapM (fun (t, i) => outcomeOf i t)
+
+def parseReq (toks : List String) : Option Req :=
+  match toks with
+  | [mr, ini, mx, mul, rf, el, hk, outs, cancel, _sleep, n, d, ts, te, tr] => do
+    let mr ← (← kv "mr" mr).toInt?
+    let ini ← (← kv "init" ini).toNat?
+    let mx ← (← kv "max" mx).toNat?
+    let (p, q) ← frac (← kv "mul" mul)
+    let (a, b) ← frac (← kv "rf" rf)
+    if a > b then none
+    let el ← (← kv "el" el).toNat?
+    let hk ← (← kv "hook" hk).toNat?
+    if hk > 1 then none
+    let outs ← outcomesOf (← kv "outs" outs)
+    let cs ← kv "cancel" cancel
+    let cancel ← (if cs = "-" then some none else cs.toNat?.map some)
+    let _ ← kv "sleep" _sleep
+    let n ← (← kv "n" n).toNat?
+    let d ← intList (← kv "d" d)
+    let ts ← natList (← kv "ts" ts)
+    let te ← natList (← kv "te" te)
+    let tr ← (← kv "tr" tr).toNat?
+    let cfg : Cfg := ⟨mr, ini, mx, p, q, a, b, el, hk == 1⟩
+    -- one outcome for every call the model can make, one start/end stamp per observed call, stamps monotone
+    if outs.length < max 1 mr.toNat + 1 then none
+    if n = 0 || ts.length ≠ n || te.length ≠ n then none
+    pure ⟨cfg, outs, cancel, n, d, ts, te, tr⟩
+  | _ => none
+
+def failOutcome : Outcome := ⟨[], some 0⟩
+
+/-- a draw `k` (random = k/2^53 ∈ [0,1)) with `randomized cfg cur k = d`, if there is one:
+    the middle of the pre-image, (d + 1/2 − lo)/R with lo = cur(1−rf), R = 2·cur·rf + 1 -/
+def drawFor (cfg : Cfg) (cur d : Nat) : Option Nat :=
+  let a := cfg.rfN
+  let b := cfg.rfD
+  let lo2 := 2 * cur * (b - a)            -- 2·b·lo
+  let mid := if (2 * d + 1) * b ≥ lo2 then ((2 * d + 1) * b - lo2) * drawDen / (2 * (2 * cur * a + b)) else 0
+  [mid, 0, drawDen - 1].find? (fun k => k < drawDen && randomized cfg cur k == d)
+
+structure Built where
+  sc       : Script
+  badDelay : Option Nat
+
+/-- the script that explains the recorded run (see the header) -/
+def build (r : Req) : Built :=
+  let cfg := r.cfg
+  -- draws: the k-th hook call (k = 1, 2, …) reported the wait of pass k
+  let drawOf (k : Nat) : Option Nat :=
+    if cfg.hook then
+      match r.d[k - 1]? with
+      | some d => if d < 0 then none else drawFor cfg (curAt cfg (k - 1)) d.toNat
+      | none => some 0
+    else some 0
+  let bad := (List.range r.d.length).find? (fun i => cfg.hook && (drawOf (i + 1)).isNone)
+  let draw (k : Nat) : Nat := (drawOf k).getD 0
+  let wOf (k : Nat) : Nat := randomized cfg (curAt cfg (k - 1)) (draw k)
+  let ts (k : Nat) : Nat := r.ts[k]?.getD 0
+  let te (k : Nat) : Nat := r.te[k]?.getD 0
+  let resetLag := if r.n ≥ 2 then (ts 1 - te 0) - wOf 1 else 0
+  let iter (k : Nat) : Iter :=
+    let out := r.outs[k]?.getD failOutcome
+    let cancelled := match r.cancel with | some j => decide (j < k) | none => false
+    if k < r.n then
+      let late := if k = 1 then 0 else (ts k - te (k - 1)) - wOf k
+      ⟨0, draw k, if cancelled then .ctxDone else .timer late, te k - ts k, out⟩
+    else
+      -- the real run made no k-th call: the context is done if it was cancelled, or if MaxElapsedTime can have passed
+      let expired := cfg.maxElapsed != 0 && decide (r.tr - te 0 ≥ cfg.maxElapsed)
+      ⟨0, 0, if cancelled || expired then .ctxDone else .timer 0, 0, out⟩
+  ⟨⟨r.outs.headD failOutcome, te 0, resetLag, iter⟩, bad.map (· + 1)⟩
+
+def idStr (x : Nat) : String := toString (x / 100) ++ "." ++ toString (x % 100)
+
+def msgsStr (l : List Nat) : String :=
+  if l.isEmpty then "-" else "+".intercalate (l.map idStr)
+
+def errStr : Option Nat → String
+  | none => "-"
+  | some e => "e" ++ toString e
+
+def hooksStr (l : List (Nat × Nat)) : String :=
+  if l.isEmpty then "-" else ",".intercalate (l.map fun (k, d) => toString k ++ ":" ++ toString d)
+
+def modelObs (r : Req) : String :=
+  let b := build r
+  match b.badDelay with
+  | some k => "bad-delay:" ++ toString k
+  | none =>
+    let run := retry r.cfg b.sc
+    -- the model's time stamps must be the recorded ones (possible iff no recorded gap is shorter than the model's wait)
+    let m := min run.attempts.length r.n
+    let badT := (List.range m).find? (fun k =>
+      match run.attempts[k]?, r.ts[k]?, r.te[k]? with
+      | some a, some s, some e => !(a.start == s && a.stop == e)
+      | _, _, _ => true)
+    let time := match badT with
+      | none => "ok"
+      | some k => "gap:" ++ toString k
+    "n=" ++ toString run.attempts.length ++ " hooks=" ++ hooksStr run.hooks ++
+      " res=" ++ msgsStr run.msgs ++ "/" ++ errStr run.err ++ " time=" ++ time
+
+/-! ### the property monitor (does not use `retry`) -/
+
+structure Obs where
+  n     : Nat
+  hooks : List (Nat × Int)
+  msgs  : String
+  err   : String
+
+def parseHooks (s : String) : Option (List (Nat × Int)) :=
+  if s = "-" then some [] else
+  (s.splitOn ",").mapM (fun t => match t.splitOn ":" with
+    | [a, b] => do pure ((← a.toNat?), (← b.toInt?))
+    | _ => none)
+
+def parseObs (toks : List String) : Option Obs :=
+  match toks with
+  | [n, hooks, res, _time] => do
+    let n ← (← kv "n" n).toNat?
+    let hooks ← parseHooks (← kv "hooks" hooks)
+    let res ← kv "res" res
+    let _ ← kv "time" _time
+    match res.splitOn "/" with
+    | [m, e] => pure ⟨n, hooks, m, e⟩
+    | _ => none
+  | _ => none
+
+/-- scaled closed form: `min(init·p^i, max·q^i)` and `q^i` (interval i+1 is their quotient) -/
+def closedNum (cfg : Cfg) (i : Nat) : Nat := min (cfg.init * cfg.mulN ^ i) (cfg.maxInt * cfg.mulD ^ i)
+
+/-- truncation allowance of the library's integer arithmetic after i multiplications, scaled by q^i -/
+def truncSlack (cfg : Cfg) : Nat → Nat
+  | 0 => 0
+  | i + 1 => if cfg.mulD = 1 then 0 else truncSlack cfg i * cfg.mulN + cfg.mulD ^ (i + 1)
+
+/-- `d ≥ min(init·mult^(k−1), max)·(1−rf)` up to the integer truncations of the library (k ≥ 1) -/
+def atLeastBackoff (cfg : Cfg) (k d : Nat) : Bool :=
+  let i := k - 1
+  -- (d + 1)·q^i·b + slack_i·b  >  closed_i·(b − a)      (all scaled by q^i·b)
+  (d + 1) * cfg.mulD ^ i * cfg.rfD + truncSlack cfg i * cfg.rfD > closedNum cfg i * (cfg.rfD - cfg.rfN)
+
+/-- `d ≤ min(init·mult^(k−1), max)·(1+rf) + 1` (only meaningful when init ≤ max and mult ≥ 1) -/
+def atMostBackoff (cfg : Cfg) (k d : Nat) : Bool :=
+  let i := k - 1
+  d * cfg.mulD ^ i * cfg.rfD ≤ closedNum cfg i * (cfg.rfD + cfg.rfN) + 2 * cfg.mulD ^ i * cfg.rfD
+
+def monitor (r : Req) (o : Obs) : String := Id.run do
+  let cfg := r.cfg
+  if o.n ≠ r.n then return "bad-op"
+  let n := o.n
+  let out (i : Nat) : Outcome := r.outs[i]?.getD failOutcome
+  let last := out (n - 1)
+  -- first success wins: no call after a successful one; its outputs are returned with a nil error
+  for i in List.range (n - 1) do
+    if (out i).err.isNone then return "violated:first_success_wins"
+  -- never turns a failure into success
+  if o.err == "-" && last.err.isSome then return "violated:never_invents_success"
+  if last.err.isNone then
+    if !(o.err == "-" && o.msgs == msgsStr last.outs) then return "violated:first_success_wins"
+  else
+    -- finally returns the last error
+    if o.err != errStr last.err then return "violated:last_error_returned"
+  -- at most MaxRetries re-invocations
+  if cfg.maxRetries ≥ 1 && decide ((n : Int) > 1 + cfg.maxRetries) then return "violated:at_most_max_retries"
+  -- OnRetryHook with 1, 2, … in order, one per failed retry
+  if cfg.hook then
+    let failedRetries := ((List.range n).filter (fun i => i ≥ 1 && (out i).err.isSome)).length
+    if o.hooks.map (·.1) != (List.range failedRetries).map (· + 1) then return "violated:hooks_in_order"
+  -- gives up when the context ends: no call after the one that cancelled it
+  match r.cancel with
+  | some j => if n > j + 1 then return "violated:gives_up_on_ctx_end"
+  | none => pure ()
+  -- waits at least the configured back-off before the k-th retry
+  let ts (k : Nat) : Nat := r.ts[k]?.getD 0
+  let te (k : Nat) : Nat := r.te[k]?.getD 0
+  for k in List.range n do
+    if k ≥ 1 then
+      if ts k < te (k - 1) then return "bad-op"
+      let gap := ts k - te (k - 1)
+      if !atLeastBackoff cfg k gap then return "violated:wait_at_least_backoff"
+  for (k, di) in o.hooks do
+    if k ≥ 1 && k < n then
+      if di < 0 then return "violated:backoff_interval_low"
+      let d := di.toNat
+      if !atLeastBackoff cfg k d then return "violated:backoff_interval_low"
+      if cfg.init ≤ cfg.maxInt && cfg.mulN ≥ cfg.mulD && !atMostBackoff cfg k d then return "violated:backoff_interval_high"
+      if ts k - te (k - 1) < d then return "violated:wait_at_least_reported_delay"
+  -- gives up when MaxElapsedTime has passed: no call is started after it
+  if cfg.maxElapsed ≠ 0 then
+    let w1 := match o.hooks with | (_, d) :: _ => d.toNat | [] => 0
+    for k in List.range n do
+      if k ≥ 2 then
+        -- the back-off was reset no later than ts 1 − w1 and read its clock for pass k no earlier than te (k−1)
+        if te (k - 1) + w1 > ts 1 + cfg.maxElapsed then return "violated:gives_up_on_elapsed"
+  return "ok"
+
+def handle (line : String) : String :=
+  match line.splitOn " " with
+  | "M" :: "retry" :: rest =>
+    match parseReq rest with
+    | some r => modelObs r
+    | none => "bad-op"
+  | "P" :: "retry" :: rest =>
+    match parseReq (rest.takeWhile (· != "##")), parseObs ((rest.dropWhile (· != "##")).drop 1) with
+    | some r, some o => monitor r o
+    | _, _ => "bad-op"
+  | _ => "bad-op"
+
+def main : IO Unit := driverMain handle
